@@ -31,8 +31,11 @@ def run(repo, cache, seed, n=40):
                 out[m.group(1) + '_scenarios'] += int(m.group(2))
             if line.startswith('FAIL clone'):
                 out['clone_failures'].append('[%s build] %s' % (sub, line[5:]))
-            if line.startswith('FAIL leak') or line.startswith('FAIL clone_from'):
+            if line.startswith('FAIL leak') or line.startswith('FAIL clone_from') or line.startswith('FAIL into_panic'):
                 out['leak_failures'].append('[%s build] %s' % (sub, line[5:]))
+            m3 = re.match(r'intopanic scenarios (\d+) failures (\d+)', line)
+            if m3:
+                out['leak_scenarios'] += int(m3.group(1))
             m2 = re.match(r'clonefrom scenarios (\d+) failures (\d+)', line)
             if m2:
                 out['clone_scenarios'] += int(m2.group(1))
